@@ -447,6 +447,22 @@ def callback_world(run, rng, idx, front, kind, cfg, dt, retry):
         if sim.thread_exc is not None or sim.died:
             run.oracle_violation("server loop died", {"what": "server loop died", "label": label, "exception": repr(sim.thread_exc)[:160]},
                                  "server.py:UdpServerThread.run")
+        # disconnect exactly once, with the story of the client: which model step each event fell in, what its callbacks did
+        step, where = 0, {}
+        for o in sim.log:
+            if o == [0, [2]]:
+                step += 1
+            elif o[0] == 0 and o[1][0] in (3, 5):
+                where.setdefault(o[1][1], []).append(["connect" if o[1][0] == 3 else "disconnect", step])
+        for cid, evs in where.items():
+            nd = sum(1 for e in evs if e[0] == "disconnect")
+            if nd != 1 or evs[0][0] != "connect":
+                run.oracle_violation("disconnect not reported exactly once",
+                                     {"what": "disconnect not reported exactly once", "label": label, "cid": cid, "cfg": list(cfg), "tick": dt,
+                                      "events_with_loop_iteration": evs[:6],
+                                      "callbacks_of_this_client[iteration,cid,cbid,ok,actions,raises]": [list(c) for c in sim.cb_calls if c[1] == cid][:4],
+                                      "update_raised_for_this_client": sum(1 for o in sim.log if o == [5, cid])},
+                                     "server.py:UdpServerThread.run (disconnect / time-out sweep)")
         lifecycle_oracle(run, sim, label, cfg)
         acted = sum(1 for c in sim.cb_calls if c[3] == 0 and (c[4] or c[5]))
         raised_out = sum(1 for o in sim.log if o[0] == 5)
